@@ -142,6 +142,9 @@ def run_app(scripts, callbacks=("on_open", "on_message", "on_data", "on_error", 
             if b == "raise" or (b == "raise_once" and name not in state["raised"]):
                 state["raised"].add(name)
                 raise ValueError("callback failure")
+            if b == "interrupt" and name not in state["raised"]:
+                state["raised"].add(name)
+                raise KeyboardInterrupt()
             if b == "close":
                 app.close()
         return cb
@@ -225,6 +228,15 @@ def sc_callback_raises():
     want = [("on_open",), ("on_data", "1", 1, True), ("on_message", "1"), ("on_error", "ValueError"), ("on_data", "2", 1, True), ("on_message", "2"),
             ("on_close", 1000, "bye")]
     return _expect("cb-raises", strip(r["trace"]), want, "callback trace") + _expect("cb-raises", r["results"], [False], "return value")
+
+
+def sc_interrupt_in_callback():
+    """KeyboardInterrupt raised inside a callback: reported, torn down, and run_forever still returns (True: an error was reported)."""
+    r = run_app([[("send", F(1, 1, b"1") + F(1, 1, b"2")), ("sleep", 0.3)]], behaviours={"on_message": "interrupt"})
+    want = [("on_open",), ("on_data", "1", 1, True), ("on_message", "1"), ("on_error", "KeyboardInterrupt"), ("on_close", None, None)]
+    return _expect("interrupt-in-callback", strip(r["trace"]), want, "callback trace") + \
+        _expect("interrupt-in-callback", r["results"], [True], "return value") + \
+        _expect("interrupt-in-callback", r["app"].sock, None, "socket after the run")
 
 
 def sc_close_in_open():
@@ -333,10 +345,11 @@ def sc_detect_window(interval=0.24, timeout=0.2):
 SCENARIOS = dict(detect_window=sc_detect_window, traffic=sc_traffic, eof=sc_eof, callback_raises=sc_callback_raises, close_in_open=sc_close_in_open,
                  close_in_message=sc_close_in_message, protocol_error=sc_protocol_error, second_run=sc_second_run,
                  close_empty_body=sc_close_empty_body, reconnect=sc_reconnect, close_no_reconnect=sc_close_no_reconnect, ping=sc_ping,
-                 ping_timeout=sc_ping_timeout)
+                 ping_timeout=sc_ping_timeout, interrupt_in_callback=sc_interrupt_in_callback)
 BY_PROPERTY = {
     "C13": ["traffic", "callback_raises", "close_in_message"],
-    "C14": ["traffic", "eof", "close_in_open", "close_in_message", "protocol_error", "second_run", "close_empty_body", "callback_raises"],
+    "C14": ["traffic", "eof", "close_in_open", "close_in_message", "protocol_error", "second_run", "close_empty_body", "callback_raises",
+            "interrupt_in_callback"],
     "C15": ["reconnect", "close_no_reconnect", "eof"],
     "C16": ["ping", "ping_timeout"],
 }
